@@ -27,6 +27,7 @@ RULE = (
     "thorough: length<=6 for all 64); for limits 3 and 4 every call history over limit+1 unequal keys up to renaming (<=7 calls quick, <=8/9 thorough); non-trivial = history with a hit and an eviction or expiry; distinct = distinct configuration+history"
 )
 RULE += "; the function's result may be None for some keys"
+RULE += '; enumerated histories with a raising miss in a full cache'
 LEVEL_TEXT = (
     "Model-based history testing: every call's result is checked against predicates over the observed history (the tag "
     "of the returned object proves which invocation produced it), so wrong-key, stale, needlessly recomputed and "
@@ -294,7 +295,10 @@ def run_case(case) -> Outcome:
                     out.violate("safety", f"C12.safety/{sig}/returned-None", "no value and no error")
             # hit obligation
             if j is not None:
-                others = {h[0] for h in hist[j + 1 :] if h[0] != key}
+                # "other keys since": calls that stored something. A call of a SYNC function that raised stored nothing (the
+                # exception propagates before anything is kept), so it does not push anybody towards the LRU end; an async
+                # call that failed did store its task
+                others = {h[0] for h in hist[j + 1 :] if h[0] != key and (is_async or h[1] is not None)}
                 age = now - hist[j][2]
                 fresh = exp is None or age < exp
                 if exp is not None and age == exp:
@@ -438,6 +442,16 @@ def enumerate_cases(tier):
         for n in range(2, maxlen + 1):
             for ops in itertools.product(alphabet, repeat=n):
                 yield {"variant": v, "limit": l, "exp": e, "ops": list(ops)}
+    # a call for a NEW key that raises while the cache is full (at every position of a short history): a failed call of a
+    # sync function stores nothing, so nobody is pushed out for it; the earlier keys are still answered from the cache
+    distinct5 = [["pos", 0, 0], ["pos", 4, 0], ["pos", 5, 0], ["pos", 6, 0], ["pos", 7, 0]]
+    for v in VARIANTS:
+        for l in (1, 2, 3):
+            fill = [{"o": "call", "r": 0, "form": distinct5[k], "raise": False} for k in range(l)]
+            boom = {"o": "call", "r": 0, "form": distinct5[l], "raise": True}
+            for e in (None, 5):
+                yield {"variant": v, "limit": l, "exp": e, "ops": [*fill, boom, *fill]}
+                yield {"variant": v, "limit": l, "exp": e, "ops": [*fill, boom, boom, *reversed(fill), dict(boom, **{"raise": False}), fill[-1]]}
     # a second cached function / second cached method (same decorator object, same arguments) called in between
     for v in VARIANTS:
         for l in (1, 2):
